@@ -3,6 +3,11 @@ From Coq Require Import ZArith QArith List Bool Lia.
 Require Import SC3.lib.PyNum SC3.gen.Gen_builtins SC3.model.Pattern.
 Import ListNotations.
 
+Section Sound.
+Variable rnd : Z -> hist -> Z -> Z -> Z.
+Local Notation snext := (snext rnd).
+Local Notation den := (den rnd).
+
 (* [prod s t]: stream state [s] produces trace [t] (finitely many small steps). *)
 Inductive prod : sstate -> trace -> Prop :=
 | prod_more s : prod s ([], EMore)
@@ -59,6 +64,8 @@ Lemma tapp_nil_stop t : tapp ([], EStop) t = t.
 Proof. destruct t; reflexivity. Qed.
 Lemma tapp_cons v l e t : tapp (v :: l, e) t = tcons v (tapp (l, e) t).
 Proof. destruct e; reflexivity. Qed.
+Lemma tapp_tcons v t T : tapp (tcons v t) T = tcons v (tapp t T).
+Proof. destruct t as [l e]; destruct e; reflexivity. Qed.
 Lemma tpre_cons v l t : tpre (v :: l) t = tcons v (tpre l t).
 Proof. reflexivity. Qed.
 Lemma tpre_nil t : tpre [] t = t.
@@ -78,6 +85,7 @@ Proof. induction n; cbn. apply prod_more. eapply prod_yield. reflexivity. exact 
 Lemma emb_inner p k T :
   prod_out (match item_at p k with
             | IDone => Stop | IErr => Err
+            | ISpin => Tau (SEmb SDone k p)
             | IItem q => Tau (SEmb (init Emb q) (S k) p) end) T ->
   forall l e cur, prod cur (l, e) -> prod (SEmb cur k p) (tapp (l, e) T).
 Proof.
@@ -93,8 +101,11 @@ Lemma prod_emb (d : pat -> trace) p :
 Proof.
   intros Hd. induction count as [|c IH]; intros k cur [l e] Hc; apply emb_inner; try exact Hc.
   - cbn. apply po_more.
-  - cbn [temb]. destruct (item_at p k); try constructor.
-    apply IH. apply Hd.
+  - cbn [temb]. destruct (item_at p k).
+    + constructor.
+    + constructor.
+    + apply po_more.
+    + apply po_tau. apply IH. apply Hd.
 Qed.
 
 (* ----------------------------------------------------------- Plen / Pdrop *)
@@ -377,15 +388,241 @@ Proof.
     apply sw_inner. apply IH. exact Hw'. exact Hd.
 Qed.
 
+
+(* --------------------------------------------------------------- Pswitch1 *)
+Lemma split_at_F2 {A B} (R : A -> B -> Prop) : forall l1 l2, Forall2 R l1 l2 -> forall i,
+  match split_at i l1, split_at i l2 with
+  | Some (p1, c1, q1), Some (p2, c2, q2) => Forall2 R p1 p2 /\ R c1 c2 /\ Forall2 R q1 q2
+  | None, None => True
+  | _, _ => False
+  end.
+Proof.
+  induction 1 as [|x y l1 l2 Hxy H IH]; intros i; cbn.
+  - exact Logic.I.
+  - destruct i as [|i]. repeat split; try constructor; assumption.
+    specialize (IH i). destruct (split_at i l1) as [[[p1 c1] q1]|], (split_at i l2) as [[[p2 c2] q2]|];
+      try contradiction; try exact Logic.I.
+    destruct IH as (H1 & H2 & H3). repeat split; try assumption. constructor; assumption.
+Qed.
+Lemma F2_length {A B} (R : A -> B -> Prop) l1 l2 : Forall2 R l1 l2 -> length l1 = length l2.
+Proof. induction 1; cbn; congruence. Qed.
+Lemma prod_sw1 : forall lw ew cw, prod cw (lw, ew) -> forall cs ts, Forall2 prod cs ts ->
+  prod (SSw1A cw cs) (tsw1 ts lw ew).
+Proof.
+  induction lw as [|iv lw IH]; intros ew cw Hw cs ts Hcs.
+  - eapply (pull _ _ Hw (fun x => SSw1A x cs)). intros; reflexivity. cbn. endcase ew.
+  - eapply (pull _ _ Hw (fun x => SSw1A x cs)). intros; reflexivity. cbn [fst snd tsw1].
+    intros cw' Hw'. destruct (as_index iv) as [z|]; [|constructor].
+    pose proof (F2_length _ _ _ Hcs) as Hlen.
+    destruct cs as [|c0 cs0], ts as [|t0 ts0]; try discriminate Hlen; [constructor|].
+    rewrite <- Hlen.
+    pose proof (split_at_F2 prod _ _ Hcs (Z.to_nat (z mod Z.of_nat (length (c0 :: cs0))))) as HS.
+    destruct (split_at _ (c0 :: cs0)) as [[[p1 c1] q1]|], (split_at _ (t0 :: ts0)) as [[[p2 [l e]] q2]|];
+      try contradiction; [|constructor].
+    destruct HS as (H1 & H2 & H3). apply po_tau.
+    eapply (pull _ _ H2 (fun x => SSw1Z p1 x q1 cw')). intros; reflexivity.
+    destruct l as [|v l]; cbn [fst snd].
+    + endcase e.
+    + intros c' Hc'. apply po_yield'. apply IH. exact Hw'.
+      apply Forall2_app. exact H1. constructor; assumption.
+Qed.
+
+(* ----------------------------------------------------------------- Ptuple *)
+Lemma trows_from_step rows acc dts v l e tts :
+  trows_from rows acc dts ((v :: l, e) :: tts) = trows_from rows (acc ++ [v]) (dts ++ [(l, e)]) tts.
+Proof.
+  unfold trows_from. cbn [heads]. destruct (heads tts) as [[vs r']|e']; [|reflexivity].
+  rewrite <- !app_assoc. reflexivity.
+Qed.
+Lemma prod_tupP j r lp T : prod (STupR (S j) r lp) T ->
+  forall f,
+  (forall cs ts, Forall2 prod cs ts -> prod (STupP [] [] cs j r lp) (tapp (trows f ts) T)) ->
+  forall todo tts, Forall2 prod todo tts -> forall acc done dts, Forall2 prod done dts ->
+  prod (STupP acc done todo j r lp) (tapp (trows_from (trows f) acc dts tts) T).
+Proof.
+  intros HT f Hrow. induction 1 as [|c t todo tts Hc Htodo IH]; intros acc done dts Hd.
+  - unfold trows_from. cbn [heads]. rewrite !app_nil_r.
+    apply prod_of_out. cbn. rewrite tapp_tcons. apply po_yield'. apply Hrow. exact Hd.
+  - destruct t as [l e].
+    eapply (pull _ _ Hc (fun x => STupP acc done (x :: todo) j r lp)). intros; reflexivity.
+    destruct l as [|v l]; cbn [fst snd].
+    + unfold trows_from. cbn [heads]. destruct e; [|reflexivity|reflexivity].
+      rewrite tapp_nil_stop. apply po_tau. exact HT.
+    + intros c' Hc'. rewrite trows_from_step. apply po_tau. apply IH.
+      apply Forall2_app. exact Hd. constructor; [exact Hc'|constructor].
+Qed.
+Lemma prod_tup_rows j r lp T : prod (STupR (S j) r lp) T ->
+  forall f cs ts, Forall2 prod cs ts -> prod (STupP [] [] cs j r lp) (tapp (trows f ts) T).
+Proof.
+  intros HT. induction f as [|f IH]; intros cs ts H.
+  - cbn. apply prod_more.
+  - cbn [trows]. apply (prod_tupP j r lp T HT f IH cs ts H [] [] []). constructor.
+Qed.
+Lemma F2_map (d : pat -> trace) : (forall q, prod (init Str q) (d q)) ->
+  forall l, Forall2 prod (map (init Str) l) (map d l).
+Proof. intros Hd. induction l; cbn; constructor; [apply Hd|assumption]. Qed.
+Lemma prod_tupR (d : pat -> trace) lp r f :
+  lp <> [] -> (forall q, prod (init Str q) (d q)) ->
+  forall count j, prod (STupR j r lp) (trep count r j (trows f (map d lp))).
+Proof.
+  intros Hne Hd. induction count as [|c IH]; intros j.
+  - apply prod_more.
+  - cbn [trep]. apply prod_of_out. cbn. destruct lp as [|q0 lp']; [congruence|].
+    destruct (in_reps r j); [|constructor].
+    apply po_tau. apply prod_tup_rows. apply IH. apply F2_map. exact Hd.
+Qed.
+
+(* ----------------------------------------------------------------- Pslide *)
+Lemma slE_inner j rem i pos cl cs l w T : prod (SSlJ j rem i pos cl cs l w) T ->
+  forall l0 e cur, prod cur (l0, e) -> prod (SSlE cur j rem i pos cl cs l w) (tapp (l0, e) T).
+Proof.
+  intros HT l0 e. induction l0 as [|v l0 IH]; intros cur Hc.
+  - eapply (pull _ _ Hc (fun x => SSlE x j rem i pos cl cs l w)). intros; reflexivity.
+    cbn. destruct e; try reflexivity. rewrite tapp_nil_stop. apply po_tau. exact HT.
+  - eapply (pull _ _ Hc (fun x => SSlE x j rem i pos cl cs l w)). intros; reflexivity.
+    cbn. intros c' Hc'. rewrite tapp_cons. apply po_yield'. apply IH. exact Hc'.
+Qed.
+Lemma prod_slJ (d : pat -> trace) i pos cl cs l w K :
+  (forall q, prod (init Emb q) (d q)) ->
+  prod (SSlS i pos cl cs l w) K ->
+  forall rem j, prod (SSlJ j rem i pos cl cs l w) (twin d l w pos j rem K).
+Proof.
+  intros Hd HK. induction rem as [|rem IH]; intros j.
+  - cbn. eapply prod_tau. reflexivity. exact HK.
+  - apply prod_of_out. cbn [Pattern.snext twin]. destruct pos as [z|q|]; try constructor.
+    destruct w.
+    + destruct (wrap_at l (z + Z.of_nat j)) as [q|]; [|constructor].
+      apply po_tau. specialize (Hd q). destruct (d q) as [l0 e]. apply slE_inner. apply IH. exact Hd.
+    + destruct ((0 <=? z + Z.of_nat j)%Z && (z + Z.of_nat j <? Z.of_nat (length l))%Z); [|constructor].
+      destruct (nth_error l (Z.to_nat (z + Z.of_nat j))) as [q|]; [|constructor].
+      apply po_tau. specialize (Hd q). destruct (d q) as [l0 e]. apply slE_inner. apply IH. exact Hd.
+Qed.
+Lemma prod_slide (d : pat -> trace) l w : l <> [] -> (forall q, prod (init Emb q) (d q)) ->
+  forall llen elen cl, prod cl (llen, elen) -> forall lstep estep cs, prod cs (lstep, estep) ->
+  forall i pos, prod (SSlA i pos cl cs l w) (tslide d l w i pos llen elen lstep estep).
+Proof.
+  intros Hne Hd. induction llen as [|lv llen IH]; intros elen cl Hl lstep estep cs Hs i pos.
+  - cbn [tslide]. destruct l as [|q0 l']; [congruence|]. destruct (cnt_zero i) eqn:Z.
+    + apply prod_stop. cbn. rewrite Z. reflexivity.
+    + eapply (pull _ _ Hl (fun x => SSlA i pos x cs (q0 :: l') w)). intros; cbn; rewrite Z; reflexivity.
+      cbn. endcase elen.
+  - cbn [tslide]. destruct l as [|q0 l']; [congruence|]. destruct (cnt_zero i) eqn:Z.
+    + apply prod_stop. cbn. rewrite Z. reflexivity.
+    + eapply (pull _ _ Hl (fun x => SSlA i pos x cs (q0 :: l') w)). intros; cbn; rewrite Z; reflexivity.
+      cbn [fst snd]. intros cl' Hl'. destruct (as_index lv) as [z|]; [|constructor].
+      apply po_tau. apply prod_slJ. exact Hd.
+      eapply (pull _ _ Hs (fun x => SSlS i pos cl' x (q0 :: l') w)). intros; reflexivity.
+      destruct lstep as [|sv lstep]; cbn [fst snd].
+      * endcase estep.
+      * intros cs' Hs'. destruct (as_num sv) as [st|]; [|constructor].
+        destruct (nadd pos st) eqn:E.
+        -- apply po_tau. apply IH; assumption.
+        -- apply po_tau. apply IH; assumption.
+        -- constructor.
+Qed.
+
+(* ------------------------------------------- seeded random patterns (Pseed) *)
+Lemma sdR_inner p z idx k cs T :
+  prod_out (if cnt_zero k then Tau (SSeedA cs p) else
+            match p with
+            | PseedRand _ l _ => match rand_item rnd l z idx with
+                                 | Some q => Tau (SSdR z ((0, Z.of_nat (length l))%Z :: idx) (cnt_dec k) (init Emb q) cs p)
+                                 | None => Err end
+            | _ => Err end) T ->
+  forall l0 e cur, prod cur (l0, e) -> prod (SSdR z idx k cur cs p) (tapp (l0, e) T).
+Proof.
+  intros HT l0 e. induction l0 as [|v l0 IH]; intros cur Hc.
+  - eapply (pull _ _ Hc (fun x => SSdR z idx k x cs p)). intros; reflexivity.
+    cbn. destruct e; try reflexivity. rewrite tapp_nil_stop. exact HT.
+  - eapply (pull _ _ Hc (fun x => SSdR z idx k x cs p)). intros; reflexivity.
+    cbn. intros c' Hc'. rewrite tapp_cons. apply po_yield'. apply IH. exact Hc'.
+Qed.
+Lemma prod_sdR (d : pat -> trace) sd l r z cs K :
+  (forall q, prod (init Emb q) (d q)) ->
+  prod (SSeedA cs (PseedRand sd l r)) K ->
+  forall count k idx cur tc, prod cur tc ->
+  prod (SSdR z idx k cur cs (PseedRand sd l r)) (tapp tc (trand rnd d l z k idx count K)).
+Proof.
+  intros Hd HK. induction count as [|c IH]; intros k idx cur [l0 e] Hc; apply sdR_inner; try exact Hc.
+  - cbn. apply po_more.
+  - cbn [trand]. destruct (cnt_zero k). apply po_tau. exact HK.
+    destruct (rand_item rnd l z idx) as [q|]; [|constructor].
+    apply po_tau. apply IH. apply Hd.
+Qed.
+Lemma sdX_inner p z idx index k cs T :
+  prod_out (if cnt_zero k then Tau (SSeedA cs p) else
+            match p with
+            | PseedXrand _ l _ => match xrand_step rnd l z idx index with
+                                  | Some (q, index', idx') => Tau (SSdX z idx' index' (cnt_dec k) (init Emb q) cs p)
+                                  | None => Err end
+            | _ => Err end) T ->
+  forall l0 e cur, prod cur (l0, e) -> prod (SSdX z idx index k cur cs p) (tapp (l0, e) T).
+Proof.
+  intros HT l0 e. induction l0 as [|v l0 IH]; intros cur Hc.
+  - eapply (pull _ _ Hc (fun x => SSdX z idx index k x cs p)). intros; reflexivity.
+    cbn. destruct e; try reflexivity. rewrite tapp_nil_stop. exact HT.
+  - eapply (pull _ _ Hc (fun x => SSdX z idx index k x cs p)). intros; reflexivity.
+    cbn. intros c' Hc'. rewrite tapp_cons. apply po_yield'. apply IH. exact Hc'.
+Qed.
+Lemma prod_sdX (d : pat -> trace) sd l r z cs K :
+  (forall q, prod (init Emb q) (d q)) ->
+  prod (SSeedA cs (PseedXrand sd l r)) K ->
+  forall count k idx index cur tc, prod cur tc ->
+  prod (SSdX z idx index k cur cs (PseedXrand sd l r)) (tapp tc (txrand rnd d l z index k idx count K)).
+Proof.
+  intros Hd HK. induction count as [|c IH]; intros k idx index cur [l0 e] Hc; apply sdX_inner; try exact Hc.
+  - cbn. apply po_more.
+  - cbn [txrand]. destruct (cnt_zero k). apply po_tau. exact HK.
+    destruct (xrand_step rnd l z idx index) as [[[q index'] idx']|]; [|constructor].
+    apply po_tau. apply IH. apply Hd.
+Qed.
+Lemma prod_sdW p z cs K : prod (SSeedA cs p) K ->
+  forall llo elo clo, prod clo (llo, elo) -> forall lhi ehi chi, prod chi (lhi, ehi) ->
+  forall k idx, prod (SSdWA z idx k clo chi cs p) (twhite rnd z k idx llo elo lhi ehi K).
+Proof.
+  intros HK. induction llo as [|lo llo IH]; intros elo clo Hl lhi ehi chi Hh k idx.
+  - cbn [twhite]. destruct (cnt_zero k) eqn:Z.
+    + eapply prod_tau. cbn. rewrite Z. reflexivity. exact HK.
+    + eapply (pull _ _ Hl (fun x => SSdWA z idx k x chi cs p)). intros; cbn; rewrite Z; reflexivity.
+      cbn. destruct elo; try reflexivity. apply po_tau. exact HK.
+  - cbn [twhite]. destruct (cnt_zero k) eqn:Z.
+    + eapply prod_tau. cbn. rewrite Z. reflexivity. exact HK.
+    + eapply (pull _ _ Hl (fun x => SSdWA z idx k x chi cs p)). intros; cbn; rewrite Z; reflexivity.
+      cbn [fst snd]. intros clo' Hl'. apply po_tau.
+      eapply (pull _ _ Hh (fun x => SSdWB lo z idx k clo' x cs p)). intros; reflexivity.
+      destruct lhi as [|hi lhi]; cbn [fst snd].
+      * destruct ehi; try reflexivity. apply po_tau. exact HK.
+      * intros chi' Hh'. destruct (white_draw rnd lo hi z idx) as [[v idx']|]; [|constructor].
+        apply po_yield'. apply IH; assumption.
+Qed.
+Lemma prod_seedA p (body : Z -> trace -> trace) :
+  (forall z x K, prod (SSeedA x p) K ->
+     prod_out (match p with
+               | PseedRand _ l r => match l with [] => Err | _ => Tau (SSdR z [] (cnt_of r) SDone x p) end
+               | PseedXrand _ l r =>
+                   match l with
+                   | [] => Err
+                   | _ => Tau (SSdX z [(0, Z.of_nat (length l))%Z] (rnd z [] 0%Z (Z.of_nat (length l))) (cnt_of r) SDone x p) end
+               | PseedWhite _ lo hi len => Tau (SSdWA z [] (cnt_of len) (init Str lo) (init Str hi) x p)
+               | _ => Err end) (body z K)) ->
+  forall ls es cs, prod cs (ls, es) -> prod (SSeedA cs p) (tseed body ls es).
+Proof.
+  intros Hb. induction ls as [|sv ls IH]; intros es cs Hs.
+  - eapply (pull _ _ Hs (fun x => SSeedA x p)). intros; reflexivity. cbn. endcase es.
+  - eapply (pull _ _ Hs (fun x => SSeedA x p)). intros; reflexivity. cbn [fst snd tseed].
+    intros cs' Hs'. destruct (as_index sv) as [z|]; [|constructor].
+    apply Hb. apply IH. exact Hs'.
+Qed.
+
 (* ====================================================== the main theorem *)
 Ltac sub IH q := let l := fresh "l" in let e := fresh "e" in let H := fresh "H" in
-  pose proof (IH Str q) as H; destruct (den _ Str q) as [l e]; cbn [fst snd].
+  pose proof (IH Str q) as H; destruct (Pattern.den rnd _ Str q) as [l e]; cbn [fst snd].
 
 Theorem den_sound : forall k m p, prod (init m p) (den k m p).
 Proof.
   induction k as [|k IH]; intros m p.
   - apply prod_more.
-  - destruct p; cbn [den init].
+  - destruct p; cbn [Pattern.den init].
     + destruct m. apply prod_once. apply prod_const.
     + rewrite <- (tapp_nil_stop (temb _ _ _ _)). apply prod_emb. apply IH. apply prod_done.
     + rewrite <- (tapp_nil_stop (temb _ _ _ _)). apply prod_emb. apply IH. apply prod_done.
@@ -407,7 +644,18 @@ Proof.
     + sub IH p. apply prod_series. assumption.
     + sub IH p. apply prod_series. assumption.
     + sub IH p. apply prod_switch. apply IH. assumption.
-    + apply prod_more.
-    + apply prod_more.
-    + apply prod_more.
+    + (* Pswitch1 *) sub IH p. apply prod_sw1. assumption. apply F2_map. intros q; apply IH.
+    + (* Ptuple *) destruct l as [|q0 l']. apply prod_err. reflexivity.
+      apply (prod_tupR (den k Str)). congruence. intros q; apply IH.
+    + (* Pslide *) destruct l as [|q0 l']. apply prod_err. reflexivity.
+      sub IH p1. sub IH p2. apply prod_slide; try assumption. congruence. intros q; apply IH.
+    + (* PseedRand *) sub IH p. apply prod_seedA; [|assumption].
+      intros z x K HK. destruct l as [|q0 l']. constructor. apply po_tau.
+      rewrite <- (tapp_nil_stop (trand _ _ _ _ _ _ _ _)). apply prod_sdR. intros q; apply IH. exact HK. apply prod_done.
+    + (* PseedXrand *) sub IH p. apply prod_seedA; [|assumption].
+      intros z x K HK. destruct l as [|q0 l']. constructor. apply po_tau.
+      rewrite <- (tapp_nil_stop (txrand _ _ _ _ _ _ _ _ _)). apply prod_sdX. intros q; apply IH. exact HK. apply prod_done.
+    + (* PseedWhite *) sub IH p1. apply prod_seedA; [|assumption].
+      intros z x K HK. apply po_tau. sub IH p2. sub IH p3. apply prod_sdW; assumption.
 Qed.
+End Sound.
